@@ -220,6 +220,10 @@ class SSHKnownHosts:
             host = f'[{host}]:{port}' if host else ''
             addr = f'[{addr}]:{port}' if addr else ''
 
+            # Network patterns carry no port, so they are only
+            # considered in the lookup made without one
+            ip = None
+
         matches = []
         matches += self._exact_entries.get(host, [])
         matches += self._exact_entries.get(addr, [])
